@@ -8,6 +8,7 @@ import (
 	"go/token"
 	"go/types"
 	"strconv"
+	"unicode"
 	"unicode/utf8"
 
 	"github.com/dave/jennifer/jen"
@@ -190,7 +191,7 @@ func runC12(r *ev.Recorder) {
 	} else {
 		r.SetDeadline(4 * 60 * 1e9)
 	}
-	r.Rule = fmt.Sprintf("LitByte: all 256 bytes (go/types evaluation). LitRune: every valid code point below %U plus plane boundaries and surrogate edges. "+
+	r.Rule = fmt.Sprintf("LitByte: all 256 bytes (go/types evaluation). LitRune: every valid code point below %U plus plane boundaries, surrogate edges and the first, second and last code point of every range of every Unicode category table. "+
 		"Lit(string): every byte string of length <= 2 over all 256 byte values (raw and gofmt-formatted), and every string of length <= %d over %d representative units "+
 		"in %d syntactic contexts (raw output scanned with go/scanner against the token skeleton of the same statement with an identifier in the hole; strconv.Unquote == input). "+
 		"Also strings of 255 .. 1 MiB bytes (all byte values cycling, the units cycling, letters), and Files holding 40..5000 distinct string literals followed by repeats of the oldest: every literal token in order keeps its own value. distinct_nontrivial counts distinct inputs that need escaping or a raw/escaped choice (any byte outside printable ASCII, or a quote, backquote or backslash)", runeLimit, maxLen, len(c12Units), len(c12Contexts))
@@ -241,10 +242,22 @@ func runC12(r *ev.Recorder) {
 				}
 			}
 		}
+		// the first, second and last code point of every range of every Unicode category table
+		for _, tab := range unicode.Categories {
+			for _, rg := range tab.R16 {
+				runes = append(runes, rune(rg.Lo), rune(rg.Lo)+rune(rg.Stride), rune(rg.Hi))
+			}
+			for _, rg := range tab.R32 {
+				runes = append(runes, rune(rg.Lo), rune(rg.Lo)+rune(rg.Stride), rune(rg.Hi))
+			}
+		}
 		runes = append(runes, 0xD7FF, 0xE000, 0xFFFD, 0xFFFE, 0xFFFF, utf8.MaxRune, 0xFEFF, 0xFFF9, 0xE0001, 0xF0000, 0x1F600, 0x3000, 0xFDD0, 0xAD, 0x061C, 0x180E)
 	}
 	explore.Range(int64(len(runes)), 0, r.Expired, func(_ int, i int64) {
 		x := runes[i]
+		if !utf8.ValidRune(x) {
+			return // surrogates are no code points
+		}
 		r.Eval(1)
 		if x < 0x20 || x > 0x7e || x == '\'' || x == '\\' {
 			r.Distinct(fmt.Sprintf("rune:%d", x))
@@ -304,6 +317,40 @@ func runC12(r *ev.Recorder) {
 			r.Distinct(fmt.Sprintf("clone-prefix-%d-%d", n, i))
 			if !got.OK() || got.Out != wants[i] {
 				r.Violate(ev.Violation{Signature: "c12:literal-on-clone", What: fmt.Sprintf("prefix of %d items cloned %d times, a literal appended to each: clone %d renders %q, want %q", n, len(sts), i, got, wants[i]), Case: ev.JSON(c12Case{Kind: "clone"})})
+			}
+		}
+	}
+
+	// strings, runes and bytes handed over through the ...Func constructors from a cursor that moves
+	// on straight after the call: the literal is the value at the time of the call
+	{
+		var cur string
+		var curR rune
+		var curB byte
+		var sts []*jen.Statement
+		var wants []string
+		for _, v := range []string{"one", "a\"b", "`", "\x00\xff", "", "%d"} {
+			cur = v
+			sts = append(sts, jen.LitFunc(func() interface{} { return cur }))
+			wants = append(wants, jh.Raw(jen.Lit(v)).Out)
+		}
+		for _, v := range []rune{'a', '\'', 0x2028, 0x10FFFF} {
+			curR = v
+			sts = append(sts, jen.LitRuneFunc(func() rune { return curR }))
+			wants = append(wants, jh.Raw(jen.LitRune(v)).Out)
+		}
+		for _, v := range []byte{0, '\'', 0xff} {
+			curB = v
+			sts = append(sts, jen.LitByteFunc(func() byte { return curB }))
+			wants = append(wants, jh.Raw(jen.LitByte(v)).Out)
+		}
+		cur, curR, curB = "moved on", 'm', 'm'
+		for i, st := range sts {
+			got := jh.Raw(st)
+			r.Eval(1)
+			r.Distinct(fmt.Sprintf("func-cursor-%d", i))
+			if !got.OK() || got.Out != wants[i] {
+				r.Violate(ev.Violation{Signature: "c12:func-constructor-cursor", What: fmt.Sprintf("literal %d built through a ...Func constructor from a cursor renders %q, want %q", i, got, wants[i]), Case: ev.JSON(c12Case{Kind: "clone"})})
 			}
 		}
 	}
